@@ -66,6 +66,7 @@ impl<W: Write> Output<W> {
 		// check before we even deserialize any values, so we don't waste time
 		// on things that will get thrown out.
 		if self.used {
+			vhit!(TOML_SECOND_USE_REFUSED);
 			return Err(TomlOutputError::MultiDocument.into());
 		}
 		self.used = true;
@@ -90,6 +91,7 @@ impl<W: Write> Output<W> {
 			self.w.write_all(output.as_bytes())?;
 			Ok(())
 		} else {
+			vhit!(TOML_NON_TABLE_ROOT_REFUSED);
 			Err(TomlOutputError::NonTableRoot.into())
 		}
 	}
